@@ -114,7 +114,8 @@ def cases(ctx):
                 lay['padding'] = [rand_size(rng, rng.choice(UNITS), small=True) for _ in range(4)]
         yield {'writer': writer, 'level': level, 'layout': lay, 'vw': vw, 'vh': vh,
                'relativize': rng.random() < 0.8, 'fit': rng.random() < 0.6,
-               'second_language': writer in ('SAMIWriter', 'DFXPWriter') and rng.random() < 0.4}
+               'second_language': writer in ('SAMIWriter', 'DFXPWriter') and rng.random() < 0.4,
+               'declared_p_style': writer == 'SAMIWriter' and level == 'set' and rng.random() < 0.7}
 
 
 def nontrivial(case):
@@ -133,6 +134,10 @@ def build_set(case):
                        'captions': [{'start': 1000000, 'end': 2000000, 'nodes': nodes, 'style': None,
                                      'layout': lay if level == 'caption' else None}]}],
             'styles': None, 'layout': lay if level == 'set' else None}
+    if case.get('declared_p_style'):
+        # a declared style whose own margins are absolute (what SAMIReader stores for 'P {margin-left: 32px}'):
+        # its block receives the set-level padding
+        spec['styles'] = {'p': {'margin-left': '32px', 'margin-top': '27pt', 'font-family': 'Arial'}}
     if case.get('second_language'):
         # the observed language comes second (SAMI treats the first language as primary)
         spec['langs'].insert(0, {'lang': 'fr', 'layout': None, 'captions': [
@@ -316,6 +321,18 @@ def check(case, ctx):
                 if g is None or not R.close(g, v):
                     fails.append({'what': 'SAMI %s differs from the exact percentage' % k, 'expected': float(v),
                                   'got': got.get(k)})
+        elif case.get('declared_p_style'):
+            # set-level padding is written into the blocks of declared styles, over their own margin rules
+            mp = re.search(r'(?<![.\w])p\s*\{([^}]*)\}', doc['css'])
+            gotp = {k: v for k, v in re.findall(r'(margin-[a-z]+):\s*([^;]+);', mp.group(1) if mp else '')}
+            want = {'margin-top': pad[0], 'margin-bottom': pad[1], 'margin-left': pad[2], 'margin-right': pad[3]}
+            ctx.count('sami_set_level_padding_observed_in_a_declared_style')
+            for k, v in want.items():
+                ctx.count('values_compared')
+                g = R.parse_pct(gotp.get(k, '').strip())
+                if g is None or not R.close(g, v):
+                    fails.append({'what': 'SAMI %s of a declared style differs from the exact percentage of the '
+                                          'set-level padding' % k, 'expected': float(v), 'got': gotp.get(k)})
         else:
             # set-level padding is only written into the blocks of declared styles; nothing to observe here
             ctx.count('sami_set_level_unobservable')
